@@ -6,6 +6,7 @@ frequency as Python floats.
 Sub-check B (paths): real propagate() through generated designed networks, decomposition checked after
 every element and on the receiver's reported figures (see pbt/props/_paths.py).
 """
+import json
 import math
 from hypothesis import strategies as st
 
@@ -14,7 +15,8 @@ from pbt.gens import spectra
 
 PROPERTY = 'C01'
 RULE = ('A: Hypothesis-generated comb (1-60 channels, mixed slot/baud/power, shuffled order) and a history of 1-40 '
-        'operations (attenuate, gain, add_ase, add_nli, demux, mux, select, receive) executed on the real '
+        'operations (attenuate, gain, add_ase, add_nli, demux into up to 5 parts, mux of all parts in a generated order, '
+        'select, receive with 1-5 evaluations of update_snr) executed on the real '
         'SpectralInformation and on a three-powers-per-frequency reference model; non-trivial = history with >=1 '
         'add_ase, >=1 add_nli and >=1 demux followed by a mux. '
         'B: generated designed network + path + spectrum through the real propagate(); non-trivial = path with >=2 '
@@ -35,18 +37,21 @@ _op = st.one_of(
     st.tuples(st.just('nli'), st.floats(0.0, 1e-3), st.integers(0, 2 ** 30)),
     st.tuples(st.just('demux'), st.floats(0.0, 1.0), st.floats(0.0, 1.0)),
     st.tuples(st.just('mux')),
-    st.tuples(st.just('mux')),
-    st.tuples(st.just('mux')),
+    st.tuples(st.just('demux'), st.floats(0.3, 0.7), st.floats(0.0, 1.0)),
     st.tuples(st.just('demux'), st.floats(0.0, 0.5), st.floats(0.5, 1.0)),
     st.tuples(st.just('select'), st.integers(0, 2 ** 30)),
     st.tuples(st.just('receive'), st.sampled_from([None, 100.0, 40.0, 33.0]), st.sampled_from([None, 41.0, 30.0])),
+    # the same received spectrum evaluated several times (what mode exploration does): figures come from the raw ones
+    st.tuples(st.just('receive2'), st.lists(st.tuples(st.sampled_from([None, 100.0, 40.0, 33.0]),
+                                                      st.sampled_from([None, 41.0, 30.0])), min_size=2, max_size=4)),
+    st.tuples(st.just('mux'), st.integers(0, 2 ** 30)),
 )
 
 
 @st.composite
 def history_case(draw):
     chans = draw(spectra.comb(1, 60))
-    ops = draw(st.lists(_op, min_size=1, max_size=40))
+    ops = draw(st.one_of(st.lists(_op, min_size=1, max_size=40), st.lists(_op, min_size=15, max_size=40)))
     return {'comb': chans, 'ops': [list(o) for o in ops]}
 
 
@@ -107,7 +112,7 @@ def compare(ctx, si, model, steps, where):
                 return
 
 
-def check_receiver(ctx, trx, si, model, tx_osnr, add_drop, where):
+def check_receiver(ctx, trx, si, model, tx_osnr, add_drop, where, more=()):
     """Reported dB figures of a Transceiver obey the identity, before and after update_snr."""
     import numpy as np
     freqs = [float(f) for f in si.frequency]
@@ -129,9 +134,20 @@ def check_receiver(ctx, trx, si, model, tx_osnr, add_drop, where):
         if not _close(float(inv(trx.raw_snr_01nm[i])), (A + N) / S * 12.5e9 / b, 1e-9, 1e-300):
             ctx.violation('receiver-raw-vs-model', f'{where}: ch {f}: raw_snr_01nm')
             return
-    for stage in ('raw', 'updated'):
-        if stage == 'updated':
-            trx.update_snr(tx_osnr, add_drop)
+    first = {}
+    stages = [('raw', None)] + [(f'updated#{k}', args) for k, args in enumerate([(tx_osnr, add_drop)] + list(more))]
+    for stage, args in stages:
+        if args is not None:
+            tx, ad = args
+            trx.update_snr(tx, ad)
+            # an evaluation depends on the raw figures and its own arguments only, not on earlier evaluations
+            key = json.dumps([tx, ad])
+            now = [np.array(getattr(trx, k), dtype=float).tolist() for k in ('snr', 'osnr_ase', 'snr_01nm', 'osnr_ase_01nm')]
+            if key in first and first[key] != now:
+                ctx.violation('receiver-evaluation-depends-on-history', f'{where}/{stage}: update_snr{tuple(args)} gave '
+                                                                        f'{first[key][0][:2]} then {now[0][:2]}')
+                return
+            first.setdefault(key, now)
         a, o, n = inv(trx.snr), inv(trx.osnr_ase), inv(trx.osnr_nli)
         for i, f in enumerate(freqs):
             if not _close(float(a[i]), float(o[i] + n[i]), 1e-9, 1e-300):
@@ -157,7 +173,8 @@ def run_history(case, ctx):
     si = spectra.comb_to_si(chans)
     model = {c['f']: [float(dbm2watt(c['p_dbm'])), 0.0, 0.0] for c in chans}
     meta = {c['f']: (c['baud'], c['slot'], c['label'], c['roll'], c['dp'], c['tx_osnr']) for c in chans}
-    rest, rest_model = None, {}
+    parts = []          # [(SpectralInformation, model)] split off by demux and not yet merged back
+    max_parts = 0
     compare(ctx, si, model, 0, 'launch')
     seen = set()
     muxed_after_demux = False
@@ -194,7 +211,7 @@ def run_history(case, ctx):
                 r = float(nli[i]) / (S + A + N)
                 model[f] = [S * (1 - r), A * (1 - r), N * (1 - r) + float(nli[i])]
         elif kind == 'demux':
-            if rest is not None:
+            if len(parts) >= 4:
                 continue
             lo_f, hi_f = min(freqs), max(freqs)
             span = hi_f - lo_f + 200e9
@@ -212,20 +229,23 @@ def run_history(case, ctx):
                 return
             mask = is_in_band(si.frequency, si.slot_width, band)
             if len(inside) < n:
-                rest = select_channels(si, ~mask)
-                rest_model = {f: model[f] for f in freqs if f not in inside}
+                parts.append((select_channels(si, ~mask), {f: model[f] for f in freqs if f not in inside}))
             else:
-                rest, rest_model = 'empty', {}
+                parts.append((None, {}))
             model = {f: model[f] for f in inside}
             si = got
         elif kind == 'mux':
-            if rest is None:
+            if not parts:
                 continue
-            if rest != 'empty':
-                si = muxed_spectral_information([si, rest]) if op and len(case['ops']) % 2 else \
-                    muxed_spectral_information([rest, si])
-                model.update(rest_model)
-            rest, rest_model = None, {}
+            real = [(si, model)] + [(x, m) for x, m in parts if x is not None]
+            max_parts = max(max_parts, len(real))
+            # merge all parts at once, in an order derived from the generated integer (any order is a valid call)
+            keys = _vec(op[1] if len(op) > 1 else len(case['ops']), len(real), 0.0, 1.0)
+            order = [i for _, i in sorted(zip(keys, range(len(real))))]
+            if len(real) > 1:
+                si = muxed_spectral_information([real[i][0] for i in order])
+                model = {f: v for i in order for f, v in real[i][1].items()}
+            parts = []
             if 'demux' in seen:
                 muxed_after_demux = True
         elif kind == 'select':
@@ -234,12 +254,16 @@ def run_history(case, ctx):
                 keep[0] = True
             si = select_channels(si, np.array(keep))
             model = {f: model[f] for f, k in zip(freqs, keep) if k}
-        elif kind == 'receive':
+        elif kind in ('receive', 'receive2'):
             trx = Transceiver(uid='rx')
             out = trx(si)
             if out is not si:
                 ctx.violation('receiver-returns-other-object', '')
-            check_receiver(ctx, trx, si, model, op[1], op[2], f'step {step}')
+            if kind == 'receive':
+                check_receiver(ctx, trx, si, model, op[1], op[2], f'step {step}')
+            else:
+                evals = [tuple(e) for e in op[1]]
+                check_receiver(ctx, trx, si, model, evals[0][0], evals[0][1], f'step {step}', more=evals[1:] + evals[:1])
         seen.add(kind)
         compare(ctx, si, model, steps, f'step {step} {kind}')
         # per-channel data travels with its frequency
@@ -257,10 +281,13 @@ def run_history(case, ctx):
     ctx.nontrivial('ase' in seen and 'nli' in seen and muxed_after_demux)
     if muxed_after_demux:
         ctx.label('demux-then-mux')
+    ctx.label(f'parts-merged:{min(max_parts, 4)}')
 
+
+FLOORS = {'A-history:parts-merged:3': (0.03, 'A-history'), 'A-history:op:receive2': (0.1, 'A-history')}
 
 CHECKS = [
-    Check('A-history', history_case(), run_history, quick=1200, thorough=40000,
+    Check('A-history', history_case(), run_history, quick=3000, thorough=60000,
           doc='operation histories on SpectralInformation vs three-power reference model'),
 ]
 
